@@ -381,4 +381,257 @@ theorem analyze_reorder_types (p : Project) (path : Str) (items' : List Item)
     · intro n; exact extractType_perm hperm hu n
   · exact ⟨rfl, rfl, rfl, rfl, fun _ => rfl, rfl, fun _ => rfl⟩
 
+/-! ### moving items between files -/
+
+/-- the files in processing order -/
+def processed (p : Project) : List File := sortedFiles (p.files.filter (fileSelected p.absRoot))
+
+/-- the project-wide lookup of a type name: the first serde item of that name in the last file that indexes it -/
+def lookupType (files : List File) (n : Str) : Option SInfo := (defFile files n).bind fun f => extractType f.items n
+
+theorem resolve_congr_lookup (l₁ l₂ : List File) (hl : ∀ n, lookupType l₁ n = lookupType l₂ n)
+    (hd : ∀ n, (defFile l₁ n).isSome = (defFile l₂ n).isSome) :
+    ∀ (fuel : Nat) (pending : List Str) (done : List (SInfo × List Str)),
+      resolve l₁ fuel pending done = resolve l₂ fuel pending done
+  | 0, _, _ => rfl
+  | _ + 1, [], _ => by simp [resolve]
+  | fuel + 1, n :: pending, done => by
+    have hx := hl n
+    unfold lookupType at hx
+    simp only [resolve, hx, hd]
+    split
+    · exact resolve_congr_lookup l₁ l₂ hl hd fuel pending done
+    · split
+      · exact resolve_congr_lookup l₁ l₂ hl hd fuel pending done
+      · exact resolve_congr_lookup l₁ l₂ hl hd fuel _ _
+
+/-- **what moving items between files can change**: the analysis depends on the files only through the sequence of
+    commands and of emissions in processing order, the number of indexed definitions, and the project-wide lookup of type
+    names.  A move that keeps these — a serde type taken from one processed file to another while its name stays defined
+    exactly once, a helper item, a `use` — leaves commands, events, the set of declarations and their content unchanged. -/
+theorem analyze_congr_lookup (p₁ p₂ : Project)
+    (hc : (processed p₁).flatMap (fun f => fileCommands f.relPath f.items) = (processed p₂).flatMap (fun f => fileCommands f.relPath f.items))
+    (he : (processed p₁).flatMap (fun f => fileEvents f.relPath f.items) = (processed p₂).flatMap (fun f => fileEvents f.relPath f.items))
+    (hn : ((processed p₁).flatMap fun f => fileDefs f.items).length = ((processed p₂).flatMap fun f => fileDefs f.items).length)
+    (hl : ∀ n, lookupType (processed p₁) n = lookupType (processed p₂) n)
+    (hd : ∀ n, (defFile (processed p₁) n).isSome = (defFile (processed p₂) n).isSome) :
+    analyze p₁ = analyze p₂ := by
+  unfold analyze
+  unfold processed at hc he hn hl hd
+  simp only []
+  rw [hc, he, hn]
+  simp only [resolve_congr_lookup _ _ hl hd]
+
+/-! #### redistributing the serde types among the files -/
+
+def parseItem : Item → Option SInfo
+  | .struct s => parseStruct s
+  | .enum e => some (parseEnum e)
+  | _ => none
+
+theorem filterMap_nodup_inj {α β : Type} (k : α → Option β) : ∀ (l : List α), (l.filterMap k).Nodup →
+    ∀ x ∈ l, ∀ y ∈ l, ∀ v, k x = some v → k y = some v → x = y
+  | [], _, x, hx, _, _, _, _, _ => by cases hx
+  | a :: as, hnd, x, hx, y, hy, v, kx, ky => by
+    cases hka : k a with
+    | none =>
+      have hnd' : (as.filterMap k).Nodup := by simpa [List.filterMap_cons, hka] using hnd
+      have hxa : x ∈ as := by
+        rcases List.mem_cons.mp hx with h | h
+        · rw [h, hka] at kx; cases kx
+        · exact h
+      have hya : y ∈ as := by
+        rcases List.mem_cons.mp hy with h | h
+        · rw [h, hka] at ky; cases ky
+        · exact h
+      exact filterMap_nodup_inj k as hnd' x hxa y hya v kx ky
+    | some w =>
+      have hnd' : w ∉ as.filterMap k ∧ (as.filterMap k).Nodup := by simpa [List.filterMap_cons, hka] using hnd
+      rcases List.mem_cons.mp hx with hxa | hxa <;> rcases List.mem_cons.mp hy with hya | hya
+      · rw [hxa, hya]
+      · exfalso
+        rw [hxa, hka] at kx
+        cases kx
+        exact hnd'.1 (List.mem_filterMap.mpr ⟨y, hya, ky⟩)
+      · exfalso
+        rw [hya, hka] at ky
+        cases ky
+        exact hnd'.1 (List.mem_filterMap.mpr ⟨x, hxa, kx⟩)
+      · exact filterMap_nodup_inj k as hnd'.2 x hxa y hya v kx ky
+
+def isNamed (n : Str) : Item → Bool
+  | .struct s => s.name = n && shouldInclude s.attrs
+  | .enum e => e.name = n && shouldInclude e.attrs
+  | _ => false
+
+theorem extractType_eq (items : List Item) (n : Str) : extractType items n = (items.find? (isNamed n)).bind parseItem := by
+  have h : extractType items n = (match items.find? (isNamed n) with
+      | some (.struct s) => parseStruct s
+      | some (.enum e) => some (parseEnum e)
+      | _ => none) := rfl
+  rw [h]
+  cases items.find? (isNamed n) with
+  | none => rfl
+  | some x => cases x <;> rfl
+
+theorem isNamed_iff (n : Str) (x : Item) : isNamed n x = true ↔ inclName x = some n := by
+  cases x with
+  | struct s => by_cases h1 : shouldInclude s.attrs = true <;> simp [isNamed, inclName, h1]
+  | enum e => by_cases h1 : shouldInclude e.attrs = true <;> simp [isNamed, inclName, h1]
+  | fn f => simp [isNamed, inclName]
+  | other => simp [isNamed, inclName]
+
+theorem find?_unique {α : Type} (q : α → Bool) : ∀ (l : List α) (x : α), x ∈ l → q x = true → (∀ y ∈ l, q y = true → y = x) →
+    l.find? q = some x
+  | [], _, hx, _, _ => by cases hx
+  | a :: as, x, hx, hqx, hu => by
+    by_cases hqa : q a = true
+    · have := hu a List.mem_cons_self hqa
+      subst this
+      simp [List.find?_cons, hqa]
+    · have hxa : x ∈ as := by
+        rcases List.mem_cons.mp hx with h | h
+        · rw [h] at hqx; exact absurd hqx hqa
+        · exact h
+      simp only [List.find?_cons, hqa]
+      exact find?_unique q as x hxa hqx (fun y hy => hu y (List.mem_cons_of_mem _ hy))
+
+/-- in a file whose indexed names are distinct, the lookup of a name finds *the* item of that name -/
+theorem extractType_of_mem (items : List Item) (hnd : (fileDefs items).Nodup) (it : Item) (hit : it ∈ items) (n : Str)
+    (hn : inclName it = some n) : extractType items n = parseItem it := by
+  rw [fileDefs_eq] at hnd
+  rw [extractType_eq, find?_unique (isNamed n) items it hit ((isNamed_iff n it).mpr hn)
+    (fun y hy hqy => filterMap_nodup_inj inclName items hnd y hy it hit n ((isNamed_iff n y).mp hqy) hn)]
+  rfl
+
+theorem nodup_flatMap_sub {α β : Type} (k : α → List β) : ∀ (l : List α), (l.flatMap k).Nodup → ∀ x ∈ l, (k x).Nodup
+  | [], _, x, hx => by cases hx
+  | a :: as, h, x, hx => by
+    simp only [List.flatMap_cons, List.nodup_append] at h
+    rcases List.mem_cons.mp hx with rfl | hx
+    · exact h.1
+    · exact nodup_flatMap_sub k as h.2.1 x hx
+
+/-- when every indexed name is indexed once in the whole list, the file that indexes a name is found whichever it is -/
+theorem defFile_of_mem : ∀ (l : List File), (l.flatMap fun f => fileDefs f.items).Nodup → ∀ f ∈ l, ∀ n,
+    n ∈ fileDefs f.items → defFile l n = some f
+  | [], _, f, hf, _, _ => by cases hf
+  | a :: as, hnd, f, hf, n, hn => by
+    simp only [List.flatMap_cons, List.nodup_append] at hnd
+    obtain ⟨_, hnd2, hdisj⟩ := hnd
+    unfold defFile
+    rcases List.mem_cons.mp hf with rfl | hfa
+    · -- `f` is the head: no later file indexes `n`
+      have hrest : as.filter (fun g => (fileDefs g.items).contains n) = [] := by
+        rw [List.filter_eq_nil_iff]
+        intro g hg hc
+        have hmem : n ∈ fileDefs g.items := by simpa using hc
+        exact hdisj n hn n (List.mem_flatMap.mpr ⟨g, hg, hmem⟩) rfl
+      have hh : (fileDefs f.items).contains n = true := by simpa using hn
+      rw [List.filter_cons]
+      simp only [hh, if_true, hrest]
+      rfl
+    · have hna : ¬ (fileDefs a.items).contains n = true := by
+        intro hc
+        have hmem : n ∈ fileDefs a.items := by simpa using hc
+        exact hdisj n hmem n (List.mem_flatMap.mpr ⟨f, hfa, hn⟩) rfl
+      rw [List.filter_cons]
+      simp only [hna, if_false]
+      exact defFile_of_mem as hnd2 f hfa n hn
+
+theorem defFile_none_of_not_mem (l : List File) (n : Str) (h : n ∉ l.flatMap fun f => fileDefs f.items) : defFile l n = none := by
+  unfold defFile
+  have : l.filter (fun f => (fileDefs f.items).contains n) = [] := by
+    rw [List.filter_eq_nil_iff]
+    intro g hg hc
+    have hmem : n ∈ fileDefs g.items := by simpa using hc
+    exact h (List.mem_flatMap.mpr ⟨g, hg, hmem⟩)
+  rw [this]; rfl
+
+theorem mem_defs_of_defFile {l : List File} {n : Str} {f : File} (h : defFile l n = some f) : f ∈ l ∧ n ∈ fileDefs f.items := by
+  unfold defFile at h
+  have := List.mem_filter.mp (List.mem_of_getLast? h)
+  exact ⟨this.1, by simpa using this.2⟩
+
+/-- **C13, moving serde types between files**: let the functions of every file stay where they are and let the serde
+    items be redistributed among the processed files in any way — each still present somewhere, the indexed names the same
+    multiset as before — in a project that indexes every type name once.  Then the analysis is unchanged: the same
+    commands and events, the same set of declarations with the same content. -/
+theorem analyze_redistribute_types (p : Project) (g : File → File)
+    (hpath : ∀ f ∈ p.files, (g f).relPath = f.relPath ∧ (g f).parses = f.parses)
+    (hfn : ∀ f ∈ processed p, fnItems (g f).items = fnItems f.items)
+    (hperm : ((processed p).map g |>.flatMap fun f => fileDefs f.items).Perm ((processed p).flatMap fun f => fileDefs f.items))
+    (huniq : ((processed p).flatMap fun f => fileDefs f.items).Nodup)
+    (hkeep : ∀ f ∈ processed p, ∀ it ∈ f.items, inclName it ≠ none → ∃ f' ∈ processed p, it ∈ (g f').items) :
+    analyze { p with files := p.files.map g } = analyze p := by
+  -- the processed files of the new project are the images of the old ones
+  have hproc : processed { p with files := p.files.map g } = (processed p).map g := by
+    unfold processed
+    have h1 : (p.files.map g).filter (fileSelected p.absRoot) = (p.files.filter (fileSelected p.absRoot)).map g :=
+      filter_map_of g _ p.files (fun f hf => by unfold fileSelected; rw [(hpath f hf).1, (hpath f hf).2])
+    show sortedFiles ((p.files.map g).filter (fileSelected p.absRoot)) = _
+    rw [h1]
+    generalize hl : p.files.filter (fileSelected p.absRoot) = l
+    have hl' : ∀ f ∈ l, (g f).relPath = f.relPath := by
+      intro f hf; rw [← hl] at hf; exact (hpath f (List.mem_filter.mp hf).1).1
+    clear hl h1
+    induction l with
+    | nil => rfl
+    | cons f fs ih =>
+      have ih := ih (fun x hx => hl' x (List.mem_cons_of_mem _ hx))
+      simp only [List.map_cons, sortedFiles, ih]
+      -- insertion commutes with `g` because only paths are compared
+      have hins : ∀ (l : List File), (∀ x ∈ l, (g x).relPath = x.relPath) → insertFile (g f) (l.map g) = (insertFile f l).map g := by
+        intro l hlp
+        induction l with
+        | nil => rfl
+        | cons x xs ihx =>
+          simp only [List.map_cons, insertFile, hl' f List.mem_cons_self, hlp x List.mem_cons_self]
+          split
+          · simp
+          · simp [ihx (fun y hy => hlp y (List.mem_cons_of_mem _ hy))]
+      exact hins _ (fun x hx => hl' x (List.mem_cons_of_mem _ (mem_sortedFiles hx)))
+  have hpathP : ∀ f ∈ processed p, (g f).relPath = f.relPath := by
+    intro f hf
+    exact (hpath f (List.mem_filter.mp (mem_sortedFiles hf)).1).1
+  have huniq' : (((processed p).map g).flatMap fun f => fileDefs f.items).Nodup := hperm.nodup_iff.mpr huniq
+  apply analyze_congr_lookup
+  · rw [hproc]
+    apply flatMap_map_congr
+    intro f hf
+    rw [hpathP f hf]; unfold fileCommands; rw [hfn f hf]
+  · rw [hproc]
+    apply flatMap_map_congr
+    intro f hf
+    rw [hpathP f hf]; unfold fileEvents; rw [hfn f hf]
+  · rw [hproc]; exact hperm.length_eq
+  · intro n
+    rw [hproc]
+    unfold lookupType
+    cases hdf : defFile (processed p) n with
+    | none =>
+      have hnot : n ∉ (processed p).flatMap fun f => fileDefs f.items := by
+        intro hmem
+        obtain ⟨f, hf, hnf⟩ := List.mem_flatMap.mp hmem
+        rw [defFile_of_mem _ huniq f hf n hnf] at hdf; cases hdf
+      rw [defFile_none_of_not_mem _ n (fun h => hnot (hperm.mem_iff.mp h))]
+    | some f =>
+      obtain ⟨hf, hnf⟩ := mem_defs_of_defFile hdf
+      rw [fileDefs_eq] at hnf
+      obtain ⟨it, hit, hin⟩ := List.mem_filterMap.mp hnf
+      obtain ⟨f', hf', hit'⟩ := hkeep f hf it hit (by rw [hin]; simp)
+      have hn' : n ∈ fileDefs (g f').items := by rw [fileDefs_eq]; exact List.mem_filterMap.mpr ⟨it, hit', hin⟩
+      rw [defFile_of_mem _ huniq' (g f') (List.mem_map.mpr ⟨f', hf', rfl⟩) n hn']
+      simp only [Option.bind]
+      rw [extractType_of_mem f.items (nodup_flatMap_sub _ _ huniq f hf) it hit n hin,
+        extractType_of_mem (g f').items (nodup_flatMap_sub _ _ huniq' (g f') (List.mem_map.mpr ⟨f', hf', rfl⟩)) it hit' n hin]
+  · intro n
+    rw [hproc]
+    by_cases hmem : n ∈ (processed p).flatMap fun f => fileDefs f.items
+    · obtain ⟨f, hf, hnf⟩ := List.mem_flatMap.mp hmem
+      obtain ⟨f2, hf2, hnf2⟩ := List.mem_flatMap.mp (hperm.mem_iff.mpr hmem)
+      rw [defFile_of_mem _ huniq f hf n hnf, defFile_of_mem _ huniq' f2 hf2 n hnf2]
+      rfl
+    · rw [defFile_none_of_not_mem _ n hmem, defFile_none_of_not_mem _ n (fun h => hmem (hperm.mem_iff.mp h))]
+
 end An
